@@ -120,6 +120,10 @@ func (vm *VM) convertPanic(msg any) error {
 		return err
 	case outError:
 		return vm.newPanic(err)
+	case *fatalError:
+		// A fatal error is fatal whatever instruction is running: it can
+		// also be raised by a deferred native call.
+		return err
 	}
 	switch op := vm.fn.Body[vm.pc-1].Op; op {
 	case OpAddr, OpIndex, -OpIndex, OpIndexRef, -OpIndexRef, OpSetSlice, -OpSetSlice:
